@@ -198,22 +198,55 @@ fn route_value(x: &Locale, k: u32) -> Result<Locale, &'static str> {
 /// fixed when the harness is compiled; arbitrary literals are the business of the generated programs of C16).
 #[cfg(feature = "macros")]
 pub fn macro_values() -> Vec<(&'static str, Locale, Option<LanguageIdentifier>)> {
-    macro_rules! mv {
-        ($($l:literal),* $(,)?) => { vec![$(($l, unic_locale::locale!($l), Some(unic_langid::langid!($l)))),*] };
-    }
-    macro_rules! mvl {
-        ($($l:literal),* $(,)?) => { vec![$(($l, unic_locale::locale!($l), None)),*] };
-    }
-    let mut v = mv![
-        "und", "UND", "und-US", "und-Latn", "Und_latn_us", "en", "EN", "en-US", "en_us", "en-Latn", "en-Latn-US", "fil", "abcde",
-        "abcdefgh", "es-419", "und-419", "ca-ES-valencia", "ca-valencia", "sl-rozaj-biske", "sl-biske-rozaj", "sl-rozaj-solba",
-        "sl-rozaj-rozaj", "de-1996", "de-DE-1996", "de-1996-1901", "frm-1606nict", "en-macos-valencia-1996", "zh-Hant-TW", "sr-Cyrl-RS-ekavsk",
+    // every invocation is written out (no macro_rules forwarding: a forwarded literal reaches the proc macro inside a
+    // None-delimited group, which is a different input than the one a user writes)
+    let v = vec![
+        ("und", unic_locale::locale!("und"), Some(unic_langid::langid!("und"))),
+        ("UND", unic_locale::locale!("UND"), Some(unic_langid::langid!("UND"))),
+        ("und-US", unic_locale::locale!("und-US"), Some(unic_langid::langid!("und-US"))),
+        ("und-Latn", unic_locale::locale!("und-Latn"), Some(unic_langid::langid!("und-Latn"))),
+        ("Und_latn_us", unic_locale::locale!("Und_latn_us"), Some(unic_langid::langid!("Und_latn_us"))),
+        ("en", unic_locale::locale!("en"), Some(unic_langid::langid!("en"))),
+        ("EN", unic_locale::locale!("EN"), Some(unic_langid::langid!("EN"))),
+        ("en-US", unic_locale::locale!("en-US"), Some(unic_langid::langid!("en-US"))),
+        ("en_us", unic_locale::locale!("en_us"), Some(unic_langid::langid!("en_us"))),
+        ("en-Latn", unic_locale::locale!("en-Latn"), Some(unic_langid::langid!("en-Latn"))),
+        ("en-Latn-US", unic_locale::locale!("en-Latn-US"), Some(unic_langid::langid!("en-Latn-US"))),
+        ("fil", unic_locale::locale!("fil"), Some(unic_langid::langid!("fil"))),
+        ("abcde", unic_locale::locale!("abcde"), Some(unic_langid::langid!("abcde"))),
+        ("abcdefgh", unic_locale::locale!("abcdefgh"), Some(unic_langid::langid!("abcdefgh"))),
+        ("es-419", unic_locale::locale!("es-419"), Some(unic_langid::langid!("es-419"))),
+        ("und-419", unic_locale::locale!("und-419"), Some(unic_langid::langid!("und-419"))),
+        ("ca-ES-valencia", unic_locale::locale!("ca-ES-valencia"), Some(unic_langid::langid!("ca-ES-valencia"))),
+        ("ca-valencia", unic_locale::locale!("ca-valencia"), Some(unic_langid::langid!("ca-valencia"))),
+        ("sl-rozaj-biske", unic_locale::locale!("sl-rozaj-biske"), Some(unic_langid::langid!("sl-rozaj-biske"))),
+        ("sl-biske-rozaj", unic_locale::locale!("sl-biske-rozaj"), Some(unic_langid::langid!("sl-biske-rozaj"))),
+        ("sl-rozaj-solba", unic_locale::locale!("sl-rozaj-solba"), Some(unic_langid::langid!("sl-rozaj-solba"))),
+        ("sl-rozaj-rozaj", unic_locale::locale!("sl-rozaj-rozaj"), Some(unic_langid::langid!("sl-rozaj-rozaj"))),
+        ("de-1996", unic_locale::locale!("de-1996"), Some(unic_langid::langid!("de-1996"))),
+        ("de-DE-1996", unic_locale::locale!("de-DE-1996"), Some(unic_langid::langid!("de-DE-1996"))),
+        ("de-1996-1901", unic_locale::locale!("de-1996-1901"), Some(unic_langid::langid!("de-1996-1901"))),
+        ("frm-1606nict", unic_locale::locale!("frm-1606nict"), Some(unic_langid::langid!("frm-1606nict"))),
+        ("en-macos-valencia-1996", unic_locale::locale!("en-macos-valencia-1996"), Some(unic_langid::langid!("en-macos-valencia-1996"))),
+        ("zh-Hant-TW", unic_locale::locale!("zh-Hant-TW"), Some(unic_langid::langid!("zh-Hant-TW"))),
+        ("sr-Cyrl-RS-ekavsk", unic_locale::locale!("sr-Cyrl-RS-ekavsk"), Some(unic_langid::langid!("sr-Cyrl-RS-ekavsk"))),
+        ("en-u-ca-buddhist", unic_locale::locale!("en-u-ca-buddhist"), None),
+        ("en-US-u-hc-h12", unic_locale::locale!("en-US-u-hc-h12"), None),
+        ("en-t-h0-hybrid", unic_locale::locale!("en-t-h0-hybrid"), None),
+        ("en-t-es-AR", unic_locale::locale!("en-t-es-AR"), None),
+        ("en-t-es-AR-h0-hybrid-u-ca-buddhist-x-priv", unic_locale::locale!("en-t-es-AR-h0-hybrid-u-ca-buddhist-x-priv"), None),
+        ("en-x-a", unic_locale::locale!("en-x-a"), None),
+        ("en-x-foo-bar", unic_locale::locale!("en-x-foo-bar"), None),
+        ("und-x-a", unic_locale::locale!("und-x-a"), None),
+        ("und-u-attr", unic_locale::locale!("und-u-attr"), None),
+        ("en-u-kn-true", unic_locale::locale!("en-u-kn-true"), None),
+        ("en-t-h0-true", unic_locale::locale!("en-t-h0-true"), None),
+        ("sl-rozaj-biske-u-ca-gregory", unic_locale::locale!("sl-rozaj-biske-u-ca-gregory"), None),
+        ("en-u-foo-bar-ca-buddhist-nu-latn", unic_locale::locale!("en-u-foo-bar-ca-buddhist-nu-latn"), None),
+        ("EN_u_CA_Buddhist", unic_locale::locale!("EN_u_CA_Buddhist"), None),
+        ("en-t-sl-rozaj-biske-h0-hybrid", unic_locale::locale!("en-t-sl-rozaj-biske-h0-hybrid"), None),
+        ("und-Latn-t-und-latn", unic_locale::locale!("und-Latn-t-und-latn"), None),
     ];
-    v.extend(mvl![
-        "en-u-ca-buddhist", "en-US-u-hc-h12", "en-t-h0-hybrid", "en-t-es-AR", "en-t-es-AR-h0-hybrid-u-ca-buddhist-x-priv", "en-x-a",
-        "en-x-foo-bar", "und-x-a", "und-u-attr", "en-u-kn-true", "en-t-h0-true", "sl-rozaj-biske-u-ca-gregory", "en-u-foo-bar-ca-buddhist-nu-latn",
-        "EN_u_CA_Buddhist", "en-t-sl-rozaj-biske-h0-hybrid", "und-Latn-t-und-latn",
-    ]);
     v
 }
 
@@ -662,13 +695,19 @@ fn answer_inner(line: &str) -> String {
                 Ok(li) => {
                     let l2: Locale = li.clone().into();
                     let back: LanguageIdentifier = l2.clone().into();
+                    // the two canonicalize entry points on an input both types accept
+                    let can = match (unic_langid::canonicalize(&v), unic_locale::canonicalize(&v)) {
+                        (Ok(a), Ok(b2)) => b(a == b2).to_string(),
+                        _ => "e".to_string(),
+                    };
                     format!(
-                        "ok {};str={};ee={};back={};lstr={}",
+                        "ok {};str={};ee={};back={};lstr={};can={}",
                         render_li(li),
                         esc(li.to_string().as_bytes()),
                         b(l2.extensions.is_empty()),
                         b(back == *li),
-                        esc(l2.to_string().as_bytes())
+                        esc(l2.to_string().as_bytes()),
+                        can
                     )
                 }
                 Err(e) => li_err(e).to_string(),
@@ -1228,6 +1267,29 @@ fn hist_step(loc: &mut Locale, op: &str) -> Option<String> {
 
 /// `hist <init> <op> <op> ...`: init is a locale string (hex) or `~` for `Locale::default()`.
 /// Response: `<init render> # <out>@<render>;rp=<reparse equal?> # ...`
+/// serde form of the identifier after a mutation (C19 on values built by mutation): `1` = the JSON text is the quoted
+/// canonical string and deserialises to an equal value, `0` = not, `n` = built without the serde feature
+#[cfg(feature = "serde")]
+fn serde_step(li: &LanguageIdentifier) -> &'static str {
+    match serde_json::to_string(li) {
+        Ok(j) => {
+            let quoted = format!("\"{}\"", li);
+            let back = serde_json::from_str::<LanguageIdentifier>(&j).map_or(false, |y| y == *li);
+            if j == quoted && back {
+                "1"
+            } else {
+                "0"
+            }
+        }
+        Err(_) => "0",
+    }
+}
+
+#[cfg(not(feature = "serde"))]
+fn serde_step(_li: &LanguageIdentifier) -> &'static str {
+    "n"
+}
+
 fn hist(a: &[&str]) -> String {
     let mut loc = match a.first().and_then(|s| unhexopt(s)) {
         Some(None) => Locale::default(),
@@ -1247,7 +1309,7 @@ fn hist(a: &[&str]) -> String {
                 // from_parts(into_parts(x)) == x, the extension string re-parsed (C17 on values built by mutation)
                 let (pl, ps, pr, pv, pe) = loc.clone().into_parts();
                 let pp = pe.parse::<ExtensionsMap>().map_or(false, |em| Locale::from_parts(pl, ps, pr, &pv, Some(em)) == loc);
-                out.push_str(&format!(" # {}@{};rp={};pp={}", o, render_loc(&loc), b(rp), b(pp)));
+                out.push_str(&format!(" # {}@{};rp={};pp={};sd={}", o, render_loc(&loc), b(rp), b(pp), serde_step(&loc.id)));
             }
             Ok(None) => {
                 out.push_str(" # na");
